@@ -2096,7 +2096,7 @@ theorem markersOK_kept {ids : List (String × String × Bool)} (h : markersOK id
     markerKept ids "_MISSING" how = true ∧ markerKept ids "RAISE" how = true := by
   unfold markersOK at h
   simp only [Bool.and_eq_true, List.all_eq_true] at h
-  exact h.1 how hh
+  exact (h.1 how hh).1
 
 /-- with the markers kept, a copy of a spec *is* the spec (as a value): rebuilt node by node
     from equal attribute values, every "absent" slot still absent -/
